@@ -106,4 +106,18 @@ VARIANTS = [
                 (BASIC, "(new_score < current[1])", "(current[1] >= new_score)")]),
     dict(name="twin: k over the upper half", kind="twin", file=BASIC,
          old="                for k in range(1, m // 2 + 1):", new="                for k in range((m + 1) // 2, m):"),
+    dict(name="seed C09_1: sieve on the operands' scores", kind="break", file=BASIC,
+         old="                        # do sorted simultaneous iteration over ilegs and jlegs\n", new="                        if iscore + jscore > cost_cap:\n                            continue\n\n                        # do sorted simultaneous iteration over ilegs and jlegs\n",
+         expect=("C09-DP", "sieve-skip")),
+    dict(name="seed C09_2: outer products concatenate the legs", kind="break", file=BASIC,
+         old="                        new_legs.extend(ilegs[ip:])\n                        new_legs.extend(jlegs[jp:])\n",
+         new="                        if ilegs[-1][0] < jlegs[0][0] or jlegs[-1][0] < ilegs[0][0]:\n                            new_legs = [*ilegs, *jlegs]\n                        else:\n                            new_legs.extend(ilegs[ip:])\n                            new_legs.extend(jlegs[jp:])\n",
+         expect=("C09-SORTED", "merge-only")),
+    dict(name="input legs stored unsorted", kind="break", file=BASIC,
+         old="            legs.sort()\n            self.nodes[i] = tuple(legs)", new="            self.nodes[i] = tuple(legs)",
+         expect=("C09-SORTED", "initial")),
+    dict(name="seed C09_3: repeated capture group for the weight", kind="break", file=BASIC,
+         old='r"(flops|size|write|combo|limit)-*(\\d*)"', new='r"(combo|limit)(?:-(\\d)*)?"', expect=("C09-FACTOR", "pattern")),
+    dict(name="twin: weight pattern with + and an optional group", kind="twin", file=BASIC,
+         old='r"(flops|size|write|combo|limit)-*(\\d*)"', new='r"(flops|size|write|combo|limit)-*([0-9]*)"'),
 ]
